@@ -20,19 +20,20 @@ type Inbound struct {
 	Chan    uint16
 	Payload []byte
 	Garbage bool // neither STUN nor ChannelData
+	Seen    bool
 }
 
 // RawClient is a scripted TURN client that builds every byte itself.
 type RawClient struct {
-	W        *World
-	Name     string
-	Addr     net.Addr // own transport address as seen by the server
-	UDP      *simnet.UDPConn
-	TCP      *simnet.Conn
-	Listener int // index: UDP listeners first, then TCP listeners
-	IsTCP    bool
-	Server   *net.UDPAddr // for UDP transport
-	tcpBuf   []byte
+	W         *World
+	Name      string
+	Addr      net.Addr // own transport address as seen by the server
+	UDP       *simnet.UDPConn
+	TCP       *simnet.Conn
+	Listener  int // index: UDP listeners first, then TCP listeners
+	IsTCP     bool
+	Server    *net.UDPAddr // for UDP transport
+	tcpBuf    []byte
 	StreamErr error
 
 	User, Pass, Realm, Nonce string
@@ -246,11 +247,11 @@ func (c *RawClient) Do(method uint16, build func(b *wire.Builder)) *wire.Msg {
 
 // AllocOpts are the options of an Allocate request.
 type AllocOpts struct {
-	Transport   byte // 17 UDP (default), 6 TCP
-	Lifetime    *uint32
-	Family      byte // 0 absent, 1 v4, 2 v6, other raw
-	EvenPort    *bool
-	Token       []byte
+	Transport    byte // 17 UDP (default), 6 TCP
+	Lifetime     *uint32
+	Family       byte // 0 absent, 1 v4, 2 v6, other raw
+	EvenPort     *bool
+	Token        []byte
 	DontFragment bool
 }
 
